@@ -1246,10 +1246,20 @@ class Mesh:
     def remove_duplicate_nodes(self):
         p, t = self._remove_duplicate_nodes(self.doflocs,
                                             self.t)
+        boundaries = self._boundaries
+        if boundaries is not None:
+            # the vertices are renumbered and, hence, so are the facets;
+            # local facet i of element k is the same facet before and after
+            _, t2f = self.build_entities(t, self.elem.refdom.facets)
+            newf = np.zeros(self.facets.shape[1], dtype=np.int32)
+            newf[self.t2f] = t2f
+            boundaries = {k: np.unique(newf[v])
+                          for k, v in boundaries.items()}
         return replace(
             self,
             doflocs=p,
             t=t,
+            _boundaries=boundaries,
         )
 
     def element_finder(self, mapping=None):
